@@ -18,6 +18,7 @@ import ShapeVerif.Props.C04
 import ShapeVerif.Proofs.QuadGen
 import ShapeVerif.Proofs.DerivGen
 import ShapeVerif.Gen.Arith
+import ShapeVerif.Gen.Integrals
 
 namespace ShapeVerif.C04
 open ShapeVerif
@@ -100,7 +101,44 @@ theorem source_open_linspace_is_model (n : Nat) : Gen.openLinspace n = openNodes
 theorem source_closed_linspace (n : Nat) : Gen.closedLinspace n = (List.range n).map fun i => ((i : Nat) : Rat) / ((n - 1 : Nat) : Rat) := by
   simp only [Gen.closedLinspace]
 
+/-! ### the quadrature loop of `IntegratePlanar.vertical` as written in the source -/
+
+theorem zip_pipeline_sum (N W : List Rat) (fx fy fd : Rat → Rat) :
+    ((List.zip W ((List.zip (N.map fx) (List.zip (N.map fy) (N.map fd))).map fun abc => abc.1 * abc.2.1 * abc.2.2)).map
+        fun wf => wf.1 * wf.2).sum
+      = ((N.zip W).map fun xw => xw.2 * (fx xw.1 * fy xw.1 * fd xw.1)).sum := by
+  induction N generalizing W with
+  | nil => simp
+  | cons x N ih =>
+    cases W with
+    | nil => simp
+    | cons w W => simp only [List.map_cons, List.zip_cons_cons, List.sum_cons, ih]
+
+/-- the body of `IntegratePlanar.vertical` (comprehension pipeline over `open_linspace`, product of the three value lists,
+`np.inner` with the weights), regenerated from curve.py on every run, IS the model's `verticalN`: for every control polygon,
+all exponents and every node count -/
+theorem source_vertical_is_model (s : Seg) (a b n : Nat) : Gen.vertical s a b n = verticalN s a b n := by
+  unfold Gen.vertical verticalN
+  rw [source_open_linspace_is_model, quad_eq_sum]
+  simp only [List.map_map]
+  exact zip_pipeline_sum (openNodes n) (openWeights n) (fun t => (evalSeg s t).x ^ a) (fun t => (evalSeg s t).y ^ b)
+    (fun t => (evalSeg (derivSeg s) t).y)
+
+/-- hence the exactness theorems are about the SOURCE: the code's ∫ x^a y^b dy over a piece of any degree is the exact integral
+whenever (a+b+1)·degree ≤ n + n mod 2 — in particular for every polygon edge with the default node count, all exponents -/
+theorem source_vertical_exact (s : Seg) (hs : 2 ≤ s.length) (a b n : Nat) (h1 : 1 ≤ n)
+    (hdeg : (a + b + 1) * (s.length - 1) ≤ n + n % 2) : Gen.vertical s a b n = exactVertical s a b := by
+  rw [source_vertical_is_model]; exact segment_integral_exact_n s hs a b n h1 hdeg
+
+theorem source_vertical_polygon_exact (p q : Pt) (a b : Nat) :
+    Gen.vertical [p, q] a b (Gen.verticalNodes a b 1) = exactVertical [p, q] a b := by
+  rw [source_vertical_is_model]
+  have : Gen.verticalNodes a b 1 = 3 + a + b + Seg.degree [p, q] := by simp [Gen.verticalNodes, Seg.degree]
+  rw [this]
+  exact polygon_edge_exact_all p q a b
+
 /-! non-vacuity -/
+example : Gen.vertical [⟨0, 0⟩, ⟨2, 1⟩, ⟨3, 4⟩] 1 0 6 = exactVertical [⟨0, 0⟩, ⟨2, 1⟩, ⟨3, 4⟩] 1 0 := by decide +kernel
 example : vertical [⟨0, 0⟩, ⟨3, 5⟩] 7 9 = exactVertical [⟨0, 0⟩, ⟨3, 5⟩] 7 9 := polygon_edge_exact_all _ _ 7 9
 example : Gen.openLinspace 3 = [1/6, 1/2, 5/6] := by decide +kernel
 example : Gen.closedLinspace 3 = [0, 1/2, 1] := by decide +kernel
